@@ -106,6 +106,7 @@ def run(ctx):
         mism += e2e.coq_calculus_compare("c01", calc_cases)
         m1, n_aux = unitcorr.poly_aux(ctx, ctx.n(200, 2000))
         m2, n_chain = unitcorr.rel_chain_fix(ctx, ctx.n(60, 600), failing, "C01")
+        unitcorr.choice_scalar_check(ctx, ctx.n(300, 3000), failing, "C01")
         mism += m1 + m2
     else:
         mism.append("model not built: analysis correspondence not run")
@@ -130,6 +131,8 @@ def replay(ctx, data):
     inp = data.get("input", data)
     o = inp.get("opts", {})
     failing = []
+    if "src" not in inp:
+        return unitcorr.replay_unit(inp, "C01")
     r = e2e.run_real(inp["src"], o.get("fin", False), o.get("strict", False))
     if r["exc"]:
         return {"what": f"raise: {r['exc']}", "sig": ["C01", "raise", r["exc"][0], r["exc"][1]], "input": inp}
